@@ -134,7 +134,58 @@ def run_scripted(case):
     return None
 
 
+def run_wrapper(case):
+    """the convenience wrapper pynetdicom2.c_find against a real AE on loopback TCP (real threads)"""
+    import threading
+    import pydicom
+    import pynetdicom2
+    from pynetdicom2 import applicationentity as aem, sopclass as sc, statuses
+    n = case['n']
+    seen = {}
+
+    class Srv(aem.AE):
+        def on_receive_find(self, context, ds):
+            seen['pid'] = str(ds.PatientID)
+
+            def gen():
+                for j in range(n):
+                    d = pydicom.Dataset()
+                    d.PatientID = 'W%d' % j
+                    d.PatientName = 'N' * (j * 37 % 90)
+                    yield d, (statuses.C_FIND_PENDING if j % 2 == 0 else statuses.C_FIND_PENDING_WARNING)
+            return gen()
+    srv = Srv('SRV', 0, max_pdu_length=case['maxlen'])
+    srv.timeout = 10
+    srv.add_scp(sc.qr_find_scp)
+    port = srv.server_address[1]
+    box = {}
+
+    def body():
+        try:
+            q = pydicom.Dataset(); q.PatientID = 'QUERY%d' % n; q.QueryRetrieveLevel = 'PATIENT'
+            box['got'] = [(None if d is None else (str(d.PatientID), str(d.PatientName)), int(st))
+                          for d, st in pynetdicom2.c_find({'aet': 'SRV', 'address': '127.0.0.1', 'port': port}, 'WRAPPER', q)]
+        except BaseException as e:  # pylint: disable=broad-except
+            box['exc'] = e
+    with srv:
+        th = threading.Thread(target=body, daemon=True)
+        th.start()
+        th.join(30)
+        if th.is_alive():
+            return 'c_find() did not finish within 30 s (%d matches)' % n
+    if 'exc' in box:
+        return 'c_find() raised %r' % (box['exc'],)
+    want = [(('W%d' % j, 'N' * (j * 37 % 90)), 0xFF00 if j % 2 == 0 else 0xFF01) for j in range(n)] + [(None, 0)]
+    if box.get('got') != want:
+        return 'c_find() yielded %r, the handler produced %d matches then the final response' % (box.get('got'), n)
+    if seen.get('pid') != 'QUERY%d' % n:
+        return 'the query did not reach the handler (%r)' % (seen.get('pid'),)
+    return None
+
+
 def replay(case):
+    if case.get('wrapper'):
+        return run_wrapper(case)
     if 'final' in case:
         return run_scripted(case)
     r = run_case(case)
@@ -154,8 +205,6 @@ def run(chk):
                 'pending ones: it must yield them all and then stop; non-trivial = at least one match')
     chk.trusted += ['harness/svc.py mock association (scripted receive, deferred consumption of sent fragments)',
                     'pydicom data set encode/decode']
-    chk.assumptions += ['the c_find convenience wrapper is qr_find_scu behind request_association: its loop is exercised here, '
-                        'its association handling on real threads in C14/C20']
     cases = []
     seed = 0
     for variant in ('find', 'mwl'):
@@ -169,6 +218,21 @@ def run(chk):
         cases.append({'variant': rnd.choice(['find', 'mwl']), 'n': rnd.randrange(0, 12), 'code': 0xFF00, 'mix': True,
                       'ts': rnd.randrange(3), 'pc': rnd.randrange(1, 256, 2), 'maxlen': rnd.choice([0, 30, 64, 1024, 16384]),
                       'msgid': rnd.randrange(65536), 'seed': seed})
+    # the convenience wrapper over real loopback TCP
+    for n, mx in ((0, 16384), (1, 0), (5, 256)) if tier == 'quick' else ((0, 16384), (1, 0), (5, 256), (40, 128), (12, 65536)):
+        wc = {'wrapper': True, 'n': n, 'maxlen': mx}
+        try:
+            r = run_wrapper(wc)
+        except Exception as e:  # pylint: disable=broad-except
+            common.raise_for(common.describe_exc(e))
+        chk.case(repr(wc), n > 0, {'c_find wrapper over loopback': True, 'n': n})
+        chk.count('wrapper')
+        if r:
+            # a timing verdict on real threads counts only if it reproduces
+            if 'did not finish' in r and run_wrapper(wc) is None:
+                chk.count('wrapper:not-reproduced')
+            else:
+                chk.violation('C16:wrapper:' + r[:20], r, wc)
     # the user side against a scripted peer: every class of final status
     sseed = 0
     for variant in ('find', 'mwl'):
